@@ -1,3 +1,6 @@
+Base/Tactics.vo Base/Tactics.glob Base/Tactics.v.beautified Base/Tactics.required_vo: Base/Tactics.v 
+Base/Tactics.vio: Base/Tactics.v 
+Base/Tactics.vos Base/Tactics.vok Base/Tactics.required_vos: Base/Tactics.v 
 Base/Prelude.vo Base/Prelude.glob Base/Prelude.v.beautified Base/Prelude.required_vo: Base/Prelude.v 
 Base/Prelude.vio: Base/Prelude.v 
 Base/Prelude.vos Base/Prelude.vok Base/Prelude.required_vos: Base/Prelude.v 
@@ -31,3 +34,9 @@ Model/Hub.vos Model/Hub.vok Model/Hub.required_vos: Model/Hub.v Model/Types.vos 
 Model/Exec.vo Model/Exec.glob Model/Exec.v.beautified Model/Exec.required_vo: Model/Exec.v Model/Types.vo Model/Env.vo Model/Registry.vo Model/Cw20.vo Model/Reward.vo Model/Dispatcher.vo Model/Hub.vo
 Model/Exec.vio: Model/Exec.v Model/Types.vio Model/Env.vio Model/Registry.vio Model/Cw20.vio Model/Reward.vio Model/Dispatcher.vio Model/Hub.vio
 Model/Exec.vos Model/Exec.vok Model/Exec.required_vos: Model/Exec.v Model/Types.vos Model/Env.vos Model/Registry.vos Model/Cw20.vos Model/Reward.vos Model/Dispatcher.vos Model/Hub.vos
+Proofs/RegistryP.vo Proofs/RegistryP.glob Proofs/RegistryP.v.beautified Proofs/RegistryP.required_vo: Proofs/RegistryP.v Base/Tactics.vo Base/Prelude.vo Base/Fixed.vo Model/Types.vo Model/Registry.vo
+Proofs/RegistryP.vio: Proofs/RegistryP.v Base/Tactics.vio Base/Prelude.vio Base/Fixed.vio Model/Types.vio Model/Registry.vio
+Proofs/RegistryP.vos Proofs/RegistryP.vok Proofs/RegistryP.required_vos: Proofs/RegistryP.v Base/Tactics.vos Base/Prelude.vos Base/Fixed.vos Model/Types.vos Model/Registry.vos
+Props/C12.vo Props/C12.glob Props/C12.v.beautified Props/C12.required_vo: Props/C12.v Base/Tactics.vo Base/Prelude.vo Base/Fixed.vo Model/Types.vo Model/Registry.vo Proofs/RegistryP.vo
+Props/C12.vio: Props/C12.v Base/Tactics.vio Base/Prelude.vio Base/Fixed.vio Model/Types.vio Model/Registry.vio Proofs/RegistryP.vio
+Props/C12.vos Props/C12.vok Props/C12.required_vos: Props/C12.v Base/Tactics.vos Base/Prelude.vos Base/Fixed.vos Model/Types.vos Model/Registry.vos Proofs/RegistryP.vos
